@@ -50,6 +50,8 @@ TEq == /\ IsEv("eq") /\ Eq(Ev.other)
 
 TCall == /\ IsEv("call") /\ Ev.who = "orig" /\ Call(Ev.f, Ev.t, SeqToSet(Ev.fill))
          /\ \A a \in Args : ObsOK(Ev.obs[a], last'.kind, last'.vals[a])
+TDeliver == /\ IsEv("deliver") /\ Deliver(Ev.f, Ev.t, Ev.a, Ev.b, SeqToSet(Ev.fill))
+            /\ ObsOK(Ev.obs, last'.kind, last'.vals)
 TCallCopy == /\ IsEv("call") /\ Ev.who = "copy" /\ CallCopy(Ev.f, Ev.t, SeqToSet(Ev.fill))
              /\ \A a \in Args : ObsOK(Ev.obs[a], last'.kind, last'.vals[a])
 
@@ -66,7 +68,7 @@ TSolve == /\ IsEv("solve") /\ Solve
           /\ Ev.ok = last'.ok
           /\ Ev.ok => Ev.td = last'.td
 
-TNext == TBuild \/ TEq \/ TCall \/ TCallCopy \/ TClear \/ TClearCopy \/ TPickle \/ TUnpickle \/ TSolve
+TNext == TBuild \/ TEq \/ TCall \/ TDeliver \/ TCallCopy \/ TClear \/ TClearCopy \/ TPickle \/ TUnpickle \/ TSolve
 TSpec == TInit /\ [][TNext]_tvars
 
 Accepted == (l = Len(T.ev) + 1) => PrintT(<<"ACCEPT", tid>>)
